@@ -86,7 +86,7 @@ Definition job_pre_params (thread_index : N) (p : params) : params :=
 (* which index a job compresses with *)
 Inductive hasher_mode :=
   | HFresh      (* no dictionary, nothing supplied: created at first use *)
-  | HKept       (* no dictionary (quality 0/1 or a prefix of at most one byte): the supplied one is kept unseen *)
+  | HKept       (* no dictionary (quality 0/1, or a prefix of at most MULTI_DICT_MIN bytes): the supplied one is kept unseen *)
   | HLocal      (* built from the dictionary by the job *)
   | HChecked    (* built by the job and compared with the supplied one: assertion failure if they differ *)
   | HSupplied.  (* the supplied one, taken as is (release profile) *)
